@@ -94,7 +94,7 @@ class Model:
         if kind == "rename":
             c = rng.choice(names)
             sp = spell(rng, c) if c.isalnum() else c
-            nm = "r%d" % k
+            nm = rng.choice(["r%d", "r%d", "R_%d", '"Rn%d"', "[RN%d]", "`Rn_%d`", "MixedName%d"]) % k      # the new name is reported exactly as written
             for x in t["cols"]:
                 if x["name"] == c:
                     x["name"] = nm
@@ -270,6 +270,26 @@ def check_case(ctx, case):
         if errs:
             ctx.violation(errs[0][0], case, {"table": [t["schema"], t["name"]], "diffs": [(w, short(o, 300), short(x, 300)) for w, o, x in errs[:3]]})
             break
+    # the same history in a dialect output mode: ALTER / INDEX statements must reach the same tables with the same effect
+    n = ctx.obs["histories_checked"] = ctx.obs["histories_checked"] + 1
+    if n % 4 == 0:
+        from vf.checks.c10 import ren
+        mode = ["bigquery", "hql", "postgres", "mysql", "snowflake", "bigquery"][(n // 4) % 6]
+        ctx.evaluated()
+        rm = parse(text, {"silent": False}, output_mode=mode)
+        ctx.obs["histories_in_dialect_mode"] += 1
+        if rm[0] == "exc":
+            ctx.violation("exception_in_dialect_mode", dict(case, mode=mode), {"mode": mode, "exception": rm[1], "message": rm[2]})
+        else:
+            ents_m = [ren(e) for e in entities(rm[1])]
+            if len(ents_m) != len(model):
+                ctx.violation("table_count", dict(case, mode=mode), {"mode": mode, "observed": len(ents_m), "expected": len(model)})
+            else:
+                for ent, t in zip(ents_m, model):
+                    errs = compare(ent, t)
+                    if errs:
+                        ctx.violation(errs[0][0], dict(case, mode=mode), {"mode": mode, "table": [t["schema"], t["name"]], "diffs": [(w, short(o, 300), short(x, 300)) for w, o, x in errs[:3]]})
+                        break
     if STATE.counters.get("reg_frame_violation", 0) > nfr:
         ctx.violation("frame_condition", case, {"monitor": "M-REG", "witness": STATE.reg_violations[-2:]})
     ctx.obs["alter_index_statements"] += case["n_alter"]
